@@ -31,12 +31,18 @@ def stream_parse_plural_forms(chk, C, count, tie_ok):
 def main():
     chk = common.Check('C07')
     import C07_common as C
-    proved = chk.prove('I18n.Props.C07', generated=('intexpr', 'grammar', 'pluralforms', 'gettextpf'), extra_targets=())
+    proved = chk.prove('I18n.Props.C07', generated=('intexpr', 'grammar', 'pluralforms', 'gettextpf', 'chkplurals'), extra_targets=())
     # the tie (first part): parse_plural_forms regenerated from the current lib/gettext.py and proved equal to the model's reader (Props/C07Tie.lean)
     tie_ok = common.prove_tie(chk, 'I18n.Props.C07Tie', ('gettextpf',),
                               'parse_plural_forms regenerated from the current lib/gettext.py is no longer proved equal to CheckPlurals.parsePluralForms / '
                               'parsePluralFormsStrict (generated_parse_plural_forms_*_eq_model and their corollaries)')
-    driver_ok = os.path.exists(common.driver_path()) and not any('untranslatable' in s for k, s in chk.lean.translation.items() if k != 'gettextpf')
+    # the tie (second part): format_range and the analysing part of check_plurals regenerated from the current lib/misc.py and lib/check/__init__.py,
+    # split at its seams, each proved equal to the model's function (Props/C07ChkTie.lean)
+    chk_tie_ok = common.prove_tie(chk, 'I18n.Props.C07ChkTie', ('chkplurals', 'gettextpf'),
+                                  'format_range / the registry comparison, the window loop, the gap analysis of check_plurals regenerated from the current source are no '
+                                  'longer proved equal to formatRange / localCorrect / window / gapRanges (generated_*_eq_model)') and tie_ok
+    chk.chk_tie_ok = chk_tie_ok
+    driver_ok = os.path.exists(common.driver_path()) and not any('untranslatable' in s for k, s in chk.lean.translation.items() if k not in ('gettextpf', 'chkplurals'))
     count = 12000 if chk.thorough else 2500
     metas = []
     if driver_ok:
@@ -86,6 +92,10 @@ def main():
         trusted=['Lean 4.33 kernel', 'axioms: propext, Classical.choice, Quot.sound only',
                  'parse_plural_forms is tied by translation + proof: tools/translate/gettextpf2lean.py (over tools/translate/pytr; the match object of the pinned header regex is the model\'s scanner) is trusted, '
                  'the regenerated reader is PROVED equal to parsePluralForms / parsePluralFormsStrict (Props/C07Tie.lean) and runs against CPython in the parse-plural-forms*-generated streams',
+                 'format_range and check_plurals after the parse of the header value are tied by translation + proof at their seams: tools/translate/chkplurals2lean.py (over pytr core/loops/trystate) is trusted, '
+                 'the regenerated format_range / check_plurals_registry / check_plurals_window / check_plurals_gaps are PROVED equal to formatRange / localCorrect / window / gapRanges (Props/C07ChkTie.lean); '
+                 'the regenerated glue between the seams (check_plurals_tail) and the part of the method before the parse stay tied by the check-plurals stream of the hand-written model only '
+                 '(the regenerated definitions materialise range objects as lists, so they are not run on the stream\'s inputs: proof-level tie only)',
                  'Spec.PluralFormsRe: list-of-successes semantics of the regex fragment (literal, set, greedy single-character repeat, x?, group) as the meaning of re.search',
                  'pluralforms2lean translator (re._parser tree, registry as loaded by lib.ling, codomain_limit / format_range max from the AST of check_plurals)',
                  'py2lean translator for the three expression analyses; hand-written model of check_plurals / parse_plural_forms tied by the check-plurals stream',
